@@ -195,6 +195,7 @@ def step (d : DState) (line : String) : DState × String :=
     let res := (List.range n).zip sys'.threads |>.map (fun (i, t) => s!"t{i}=" ++ ",".intercalate (t.results.map canonRes))
     ({ d with store := sys'.store, cthreads := [] }, "res " ++ " ".intercalate res ++ " | " ++ dumpMem sys'.store.mem)
   | "stress" :: _ => (d, "ok")
+  | "note" :: _ => (d, "ok")
   | "ext" :: n :: _ =>
     match n.toNat? with
     | some k => ({ limit := k }, "ok")
